@@ -289,7 +289,89 @@ def memo_cases():
     return out
 
 
+def recolour_palette(b):
+    """the same file with every colour of its new-format palette chunks changed (same shapes and ids)"""
+    bb = bytearray(b)
+    changed = False
+    for kind, off, sz in vlib.walk_chunks(b):
+        if kind == "chunk:2019" and sz >= 26:
+            n = struct.unpack_from("<I", b, off + 6)[0]
+            p = off + 6 + 20
+            for _ in range(min(n, 4096)):
+                if p + 6 > off + sz:
+                    break
+                flags = struct.unpack_from("<H", b, p)[0]
+                for j in (2, 3, 4):
+                    bb[p + j] ^= 0x5a
+                changed = True
+                p += 6
+                if flags & 1:
+                    if p + 2 > off + sz:
+                        break
+                    p += 2 + struct.unpack_from("<H", b, p)[0]
+    return bytes(bb) if changed else None
+
+
+def hist_extra(ctx, scale, res, files, model_obs, impl_obs):
+    """call histories for the pixel conversions: an indexed sprite A' (A with all palette colours changed: same
+    palette / tileset ids and geometry) and A are loaded, observed and dropped alternately on one thread; A must
+    always be observed as on a fresh thread"""
+    reqs, meta = [], {}
+    for cid, b in files:
+        if len(b) > 140 and b[12:14] == b"\x08\x00" and len(b) < 60000 and len(reqs) < (60 if ctx.quick else 600):
+            a2 = recolour_palette(b)
+            if a2 is not None and vlib.outcome(impl_obs.get(cid) or []) == "ok":
+                hid = f"althist/{cid}"
+                reqs.append(f"HISTORY {hid} {a2.hex()} {b.hex()} alt")
+                meta[hid] = b
+    if not reqs:
+        return
+    for profile in ("release", "relchk"):
+        o, _ = vlib.run_impl(reqs, profile)
+        for hid, b in meta.items():
+            res.evaluations += 1
+            res.compared += 1
+            lines = o.get(hid) or ["missing"]
+            bad = [l for l in lines if l.startswith("differs") or "failed-or-panicked" in l or l == "missing"]
+            if bad:
+                res.oracle_failures.append({"id": hid, "build_profile": profile, "input_hex": b.hex(),
+                                            "call": "HISTORY alt: recoloured copy and original loaded, observed and dropped alternately on one thread",
+                                            "what": "a sprite is observed differently after another sprite was loaded and dropped on the same thread: " + bad[0][:300]})
+    res.distribution["alternating histories"] = len(reqs)
+
+
+def blend_sheets():
+    """for each of the 19 blend modes a 256x256 sprite whose two layers put EVERY (backdrop, source) pair of channel
+    values under that mode (red: x over y, green: y over x, blue: x over 255-y), once with everything opaque and
+    once with a translucent backdrop and a layer opacity of 200"""
+    import zlib
+    out = []
+    for balpha, opacity in ((255, 255), (128, 200)):
+        back = b"".join(bytes([x, y, x, balpha]) for y in range(256) for x in range(256))
+        src = b"".join(bytes([y, x, 255 - y, 255]) for y in range(256) for x in range(256))
+        zb, zs = zlib.compress(back, 6), zlib.compress(src, 6)
+        zc = lambda l, z: mk_chunk(0x2005, struct.pack("<HhhBH", l, 0, 0, 255, 2) + bytes(7) + struct.pack("<HH", 256, 256) + z)
+        lay = lambda blend, op: mk_chunk(0x2004, struct.pack("<HHHHHHBBH", 1, 0, 0, 0, 0, blend, op, 0, 0) + struct.pack("<H", 1) + b"L")
+        for mode in range(19):
+            out.append((f"sheet/{mode}/{balpha}-{opacity}", mk_header(1, 256, 256) + mk_frame([lay(0, 255), zc(0, zb), lay(mode, opacity), zc(1, zs)])))
+    return out
+
+
 def order_extra(ctx, scale, res, files, model_obs, impl_obs):
+    if scale == 1:
+        sheets = blend_sheets()
+        sm, _ = vlib.run_model(vlib.load_lines(sheets))
+        for profile in ("release", "relchk"):
+            si, _ = vlib.run_impl(vlib.load_lines(sheets), profile)
+            sub = Result()
+            compare_cases(sub, sheets, sm, si, ["frameimg", "celA"], must_load_oracle, what=f"every channel pair under every blend mode [{profile}]",
+                          spec_backed="C02.frameImage_spec with C03.blend_eq_ref")
+            for f in sub.oracle_failures + sub.corr_diffs:
+                f["build_profile"] = profile
+                if "input_hex" in f and len(f["input_hex"]) > 400000:
+                    f["input_hex"] = f["input_hex"][:400000]
+            res.merge(sub)
+        res.distribution["blend sheets"] = len(sheets)
     extra = bait_cases() + memo_cases()
     for profile in ("release", "relchk"):
         sub = Result()
@@ -576,6 +658,11 @@ def structure_cases():
                     f0 = [mk_layer()] + ([tagsk(n0)] if n0 else []) + ([ud] if pre else [])
                     f1 = [tagsk(n1)] + [ud] * nud
                     out.append((f"latetags/{n0}/{n1}/{nud}/{pre}", mk_header(2, 2, 2) + mk_frame(f0) + mk_frame(f1)))
+    # an external-only / pixel-less tileset chunk followed by 1..3 user-data records (nothing to attach per-tile data to)
+    for flags in (1, 5, 0, 2):
+        for nt in (0, 1, 3):
+            for nud in (1, 2, 3):
+                out.append((f"tileset-ud/{flags}/{nt}/{nud}", mk_header(1, 2, 2) + mk_frame([mk_layer(), ts_chunk(0, flags, nt)] + [ud] * nud + [mk_layer(name=b"Z")])))
     # more user-data records after a Tags chunk than it has tags (the per-tag cursor runs past the last tag)
     for n in (0, 1, 2, 3):
         for k in (n + 1, n + 2):
@@ -730,11 +817,11 @@ register("C02", wf_routine(RENDER, [("render", 300, 10000), ("struct", 100, 2000
 register("C06", wf_routine(CELS, [("rgba", 120, 3000), ("gray", 120, 3000), ("indexed", 160, 4000), ("large", 6, 100)],
          "generated sprites in each pixel format (sparse palettes, alpha<255, all transparent-index "
          "values, background flag, raw and zlib, links); distinct = distinct cel observations",
-         spec_backed="C06.celImage_spec / indexed_conversion / linked_cel_eq_target / absent_cel"))
+         spec_backed="C06.celImage_spec / indexed_conversion / linked_cel_eq_target / absent_cel", extra=hist_extra))
 register("C08", wf_routine(TILES, [("tiles", 300, 10000)],
          "generated tilesets/tilemaps (tile sizes 1..5 non-square, all formats, aligned offsets "
          "-3..+3 tiles, extended lookup grid); distinct = distinct tilemap/tileset observations",
-         spec_backed="C08.tilemapImage_spec / tile_inside / tile_outside_empty / tilemap_size / tileImage_spec / tilesetImage_spec"))
+         spec_backed="C08.tilemapImage_spec / tile_inside / tile_outside_empty / tilemap_size / tileImage_spec / tilesetImage_spec", extra=hist_extra))
 def c19_extra(ctx, scale, res, files, model_obs, impl_obs):
     """more than 65536 layers: layer ids no longer fit the u16 cel coordinate, and the three routes
     must still denote the same cel"""
@@ -1164,6 +1251,20 @@ def c15_run(ctx, scale):
             body = b"".join(chunks)
             fr = struct.pack("<IHHHHI", 16 + len(body), 0xF1FA, 0xFFFF, 100, 0, len(chunks)) + body
             files.append((f"feat/late-chunk/{what}/{len(chunks)}", mk_header(1, 1, 1) + fr))
+    # an unsupported cel (unknown cel type, tilemap with 8 / 16 bits per tile) on a layer with the REFERENCE flag / hidden layer
+    for lflags in (0x41, 0x40, 0x00, 0x43):
+        lay = mk_chunk(0x2004, struct.pack("<HHHHHHBBH", lflags, 0, 0, 0, 0, 0, 255, 0, 0) + struct.pack("<H", 1) + b"R")
+        for ct in (4, 7, 255):
+            c = mk_chunk(0x2005, struct.pack("<HhhBH", 0, 0, 0, 255, ct) + bytes(7) + struct.pack("<HH", 1, 1) + bytes(4))
+            files.append((f"feat/cel-type-on-layer-flags/{lflags:x}/{ct}", mk_header(1, 1, 1) + mk_frame([lay, c])))
+        for bits in (8, 16):
+            import zlib as _zz
+            c = mk_chunk(0x2005, struct.pack("<HhhBH", 0, 0, 0, 255, 3) + bytes(7)
+                         + struct.pack("<HHHIIII", 1, 1, bits, 0x1fffffff, 0x20000000, 0x40000000, 0x80000000) + bytes(10) + _zz.compress(bytes(bits // 8)))
+            files.append((f"feat/tile-bits-on-layer-flags/{lflags:x}/{bits}", mk_header(1, 1, 1) + mk_frame([lay, c])))
+    for pw, ph in ((1, 2), (1, 3), (1, 255), (2, 1), (255, 1), (2, 2), (3, 2), (2, 255)):
+        hb = bytearray(mk_header(1, 1, 1)); hb[34] = pw; hb[35] = ph
+        files.append((f"feat/pixel-ratio/{pw}:{ph}", bytes(hb) + mk_frame([mk_layer()])))
     # an unknown direction on a tag that spans several frames / one frame / has from > to
     for fr, to in ((0, 1), (0, 2), (1, 1), (2, 2), (2, 0), (0, 0)):
         for d in (3, 4, 7, 200, 255):
@@ -1381,6 +1482,16 @@ def c18_run(ctx, scale):
         reqs.append(f"UTIL {cid} mapper {pal_file(0, ents).hex()} 7 - {bytes(x for q in qs for x in q).hex()}")
         meta[cid] = ("mapper", 0, ents, 7, "-", qs)
         nomodel.add(cid)
+    # two mappers on ONE loaded palette whose ids pass 255: the second one's failure index is its own
+    for k2, (first, cnt) in enumerate(((254, 4), (250, 10), (0, 300))):
+        ents = [((17 * j + 3) % 256, (29 * j + 5) % 256, (j * 7) % 256, 255) for j in range(cnt)]
+        qs = [e[:3] + (255,) for e in ents[:12]] + [e[:3] + (255,) for e in ents[-6:]] + [(1, 1, 1, 255), ents[-1][:3] + (100,)]
+        qb = bytes(x for q in qs for x in q)
+        for f1, f2 in ((3, 7), (7, 3), (0, 255)):
+            cid = f"map2/{k2}/{f1}>{f2}"
+            reqs.append(f"UTIL {cid} mapper {pal_file(first, ents).hex()} {f1}>{f2} - {qb.hex()}")
+            meta[cid] = ("mapper", first, ents, f2, "-", qs)
+            nomodel.add(cid)
     impl, _ = vlib.run_impl(reqs)
     # the same requests in the build with overflow checks and debug assertions
     impl_chk, _ = vlib.run_impl(reqs, "relchk")
@@ -1550,7 +1661,7 @@ def c13_run(ctx, scale):
         end = end_of_last_frame(b)
         if end is None or end > len(b):
             continue
-        cuts = set(range(max(0, end - 45), end)) | set(rng.randrange(end) for _ in range(12)) | {128, 132, 134, 144}
+        cuts = set(range(max(0, end - 45), end)) | set(rng.randrange(end) for _ in range(12)) | {128, 132, 134, 144} | set(range(0, 8))
         for k in sorted(c for c in cuts if 0 <= c < end):
             rid = f"filecut/{cid}@{k}"
             freqs.append(f"SCHED {rid} {b[:k].hex() or '-'} file")
@@ -1951,6 +2062,15 @@ def hostile_memory_inputs(ctx, scale):
         ctb = mk_chunk(0x2005, struct.pack("<HhhBH", 0, 0, 0, 255, 3) + bytes(7)
                        + struct.pack("<HHHIIII", 4097, 4096, bits, 0x1fffffff, 0x20000000, 0x40000000, 0x80000000) + bytes(10) + zt)
         out.append((f"bomb-tilemap-bits/{bits}", mk_header(1, 4, 4) + mk_frame([ts1b, ltb, ctb])))
+    # a valid sprite with a 4096x4096 transparent cel, wrapped as a whole in gzip / zlib / raw deflate (the two
+    # deflate ratios must not multiply: such input is not a sprite)
+    import gzip
+    inner = mk_header(1, 4, 4) + mk_frame([mk_layer(), mk_chunk(0x2005, struct.pack("<HhhBH", 0, 0, 0, 255, 2) + bytes(7)
+                                          + struct.pack("<HH", 4096, 4096) + zlib.compress(bytes(4096 * 4096 * 4), 9))])
+    co = zlib.compressobj(9, zlib.DEFLATED, -15)
+    out.append(("wrapped/gzip", gzip.compress(inner, 9, mtime=0)))
+    out.append(("wrapped/zlib", zlib.compress(inner, 9)))
+    out.append(("wrapped/deflate", co.compress(inner) + co.flush()))
     # many tags chunks each declaring 65535 tags
     tags = mk_chunk(0x2018, struct.pack("<H", 65535) + bytes(8))
     out.append(("tags-declared", mk_header(1, 4, 4) + mk_frame([mk_layer()] + [tags] * 50)))
@@ -2687,7 +2807,7 @@ def c09_run(ctx, scale):
     maxn = 6 if ctx.quick else 8
     res = Result(f"EXHAUSTIVELY every layer forest of 1..{maxn} layers (level of the first layer 0, each level at most "
                  "one more than its predecessor's) x every assignment of visible flags; layer i is a group or image layer "
-                 "with an opaque 1x1 cel at pixel (i, 0); oracle (computed independently in Python): parent = nearest "
+                 "with an opaque 1x1 cel at pixel (i, 0) (a third variant leaves the group layers without cels); oracle (computed independently in Python): parent = nearest "
                  "preceding smaller level, is_visible = own flag and all ancestors' flags, frame pixel i = the cel's colour "
                  "iff the layer is visible else transparent; distinct = distinct (forest, flags) pairs; plus random deeper "
                  "forests from the generator")
@@ -2695,20 +2815,31 @@ def c09_run(ctx, scale):
     for n in range(1, maxn + 1):
         for lv in forests(n):
             for mask in range(1 << n):
-              for all_image in ((False, True) if n <= 6 else (False,)):
+              for all_image in ((False, True, None) if n <= 6 else (False,)):
+                # all_image None: variant 3 = variant 1 without cels on the group layers (so that the cels of the
+                # children of two different groups follow each other directly)
+                nogrpcel = all_image is None
+                all_image = bool(all_image)
                 chunks = []
+                groups = set()
                 for i in range(n):
                     vis = (mask >> i) & 1
                     # variant 1: a layer is a group iff the next layer is its child;
                     # variant 2: every layer is an image layer (the parent rule does not depend on the type)
                     is_group = (not all_image) and i + 1 < n and lv[i + 1] == lv[i] + 1
+                    if is_group:
+                        groups.add(i)
                     name = b"L%d" % i
                     chunks.append(mk_chunk(0x2004, struct.pack("<HHHHHHBBH", vis, 1 if is_group else 0, lv[i], 0, 0, 0, 255, 0, 0)
                                            + struct.pack("<H", len(name)) + name))
+                if nogrpcel and not groups:
+                    continue
                 for i in range(n):
+                    if nogrpcel and i in groups:
+                        continue
                     chunks.append(mk_chunk(0x2005, struct.pack("<HhhBH", i, i, 0, 255, 0) + bytes(7) + struct.pack("<HH", 1, 1)
                                            + bytes([10 + i, 20 + i, 30 + i, 255])))
-                cid = f"forest/{''.join(map(str, lv))}/{mask:0{n}b}/{'img' if all_image else 'grp'}"
+                cid = f"forest/{''.join(map(str, lv))}/{mask:0{n}b}/{'img' if all_image else ('nogrpcel' if nogrpcel else 'grp')}"
                 if all_image and n == 1:
                     continue
                 files.append((cid, mk_header(1, n, 1) + mk_frame(chunks)))
@@ -2722,7 +2853,7 @@ def c09_run(ctx, scale):
                         p = j
                     parents.append(p)
                     visible.append(bool((mask >> i) & 1) and (p is None or visible[p]))
-                exp[cid] = (parents, visible)
+                exp[cid] = (parents, visible, (groups if nogrpcel else set()))
     # deep chains: nesting beyond 255 levels, the innermost group (or one in the middle) hidden
     for depth, hidden in ((255, 200), (256, 255), (300, 255), (300, 299), (1000, 1)):
         n = depth + 1
@@ -2731,12 +2862,12 @@ def c09_run(ctx, scale):
         chunks.append(mk_chunk(0x2005, struct.pack("<HhhBH", depth, 0, 0, 255, 0) + bytes(7) + struct.pack("<HH", 1, 1) + bytes([9, 9, 9, 255])))
         cid = f"chain/{depth}/hidden{hidden}"
         files.append((cid, mk_header(1, 1, 1) + mk_frame(chunks)))
-        exp[cid] = ([None] + list(range(depth)), [i < hidden for i in range(n)])
+        exp[cid] = ([None] + list(range(depth)), [i < hidden for i in range(n)], set())
     res.exhaustive = True
     def orc(cid, data, impl, model):
         if vlib.outcome(impl) != "ok":
             return "a forest did not load: " + vlib.outcome_detail(impl)
-        parents, visible = exp[cid]
+        parents, visible, nocel = exp[cid]
         n = len(parents)
         for l in impl:
             w = l.split(" ")
@@ -2758,7 +2889,7 @@ def c09_run(ctx, scale):
             elif w[0] == "frameimg":
                 px = bytes.fromhex(w[2].split(":")[3])
                 for k in range(n):
-                    want = bytes([10 + k, 20 + k, 30 + k, 255]) if visible[k] else bytes(4)
+                    want = bytes([10 + k, 20 + k, 30 + k, 255]) if (visible[k] and k not in nocel) else bytes(4)
                     if px[4 * k:4 * k + 4] != want:
                         return f"frame pixel {k} is {px[4 * k:4 * k + 4].hex()}, expected {want.hex()} (layer visible={visible[k]})"
         return None
